@@ -14,9 +14,11 @@ func fnWatch(ctx *cmdContext, args map[string]any) (output respValue, err error)
 	}
 
 	ids := ctx.dsc.getIds(keyStrs...)
+	ctx.cs.mu.Lock()
 	for idx, id := range ids {
 		ctx.cs.watches[watchKey{ds: ctx.dsc.ds, key: keyStrs[idx]}] = id
 	}
+	ctx.cs.mu.Unlock()
 
 	output.data = rstrOK
 	return
@@ -24,7 +26,7 @@ func fnWatch(ctx *cmdContext, args map[string]any) (output respValue, err error)
 
 func fnUnwatch(ctx *cmdContext, args map[string]any) (output respValue, err error) {
 	// clear out watch map
-	ctx.cs.watches = map[watchKey]uint64{}
+	ctx.cs.clearWatches()
 	output.data = rstrOK
 	return
 }
@@ -36,17 +38,39 @@ func fnDiscard(ctx *cmdContext, args map[string]any) (output respValue, err erro
 	}
 
 	// clear out watch map and discard multi command queue
-	ctx.cs.watches = map[watchKey]uint64{}
+	ctx.cs.clearWatches()
 	ctx.cs.cmdQueue = nil
 	ctx.cs.queueError = false
 	output.data = rstrOK
 	return
 }
 
-func isAbortedExecUnlocked(cs *clientState) bool {
+// clearWatches empties the watch table. The table is read by other
+// connections (CLIENT LIST computes their flags), so it is only touched
+// under the session lock.
+func (cs *clientState) clearWatches() {
+	cs.mu.Lock()
+	cs.watches = map[watchKey]uint64{}
+	cs.mu.Unlock()
+}
+
+// watchList is a copy of the watch table, safe to iterate.
+func (cs *clientState) watchList() map[watchKey]uint64 {
+	cs.mu.Lock()
+	defer cs.mu.Unlock()
+	list := make(map[watchKey]uint64, len(cs.watches))
 	for watch, id := range cs.watches {
-		// caller holds exclusive lock, so go directly to the data store for this check
-		if watch.ds.hasChangedUnlocked(watch.key, id) {
+		list[watch] = id
+	}
+	return list
+}
+
+// isAbortedExecUnlocked reports whether a key watched by cs in the data store
+// owned - the one whose lock the caller holds - has changed. Watches on other
+// data stores cannot be examined under this lock; fnExec checks those itself.
+func isAbortedExecUnlocked(cs *clientState, owned *dataStore) bool {
+	for watch, id := range cs.watchList() {
+		if watch.ds == owned && watch.ds.hasChangedUnlocked(watch.key, id) {
 			return true
 		}
 	}
@@ -61,11 +85,25 @@ func fnExec(ctx *cmdContext, args map[string]any) (output respValue, err error) 
 
 	if ctx.cs.queueError {
 		// a command was rejected while queueing: execute nothing
-		ctx.cs.watches = map[watchKey]uint64{}
+		ctx.cs.clearWatches()
 		ctx.cs.cmdQueue = nil
 		ctx.cs.queueError = false
 		output.data = respErrorString("EXECABORT Transaction discarded because of previous errors.")
 		return
+	}
+
+	// keys watched in another database (WATCH, then SELECT) are examined
+	// under that database's own lock, before this one is taken
+	foreignChange := false
+	for watch, id := range ctx.cs.watchList() {
+		if watch.ds != ctx.dsc.ds {
+			wdsc := watch.ds.newDataStoreCommand()
+			wdsc.lock()
+			if watch.ds.hasChangedUnlocked(watch.key, id) {
+				foreignChange = true
+			}
+			wdsc.unlock()
+		}
 	}
 
 	// take complete ownership of the data store
@@ -77,9 +115,9 @@ func fnExec(ctx *cmdContext, args map[string]any) (output respValue, err error) 
 	defer ctx.cs.setMultiInProgress(false)
 
 	// check the watches; if anything has changed, return null
-	if isAbortedExecUnlocked(ctx.cs) {
+	if foreignChange || isAbortedExecUnlocked(ctx.cs, ctx.dsc.ds) {
 		// the transaction is over: back to normal mode, nothing watched
-		ctx.cs.watches = map[watchKey]uint64{}
+		ctx.cs.clearWatches()
 		ctx.cs.cmdQueue = nil
 		return
 	}
@@ -102,7 +140,7 @@ func fnExec(ctx *cmdContext, args map[string]any) (output respValue, err error) 
 	}
 
 	// reset multi state and return the results
-	ctx.cs.watches = map[watchKey]uint64{}
+	ctx.cs.clearWatches()
 	ctx.cs.cmdQueue = nil
 	output.data = nativeArrayToResp(results)
 	return
